@@ -368,7 +368,28 @@ pub fn gen_case(seed: u64, idx: u64, corpus: &Corpus, prefixes: &[(usize, usize)
         return Case { cat: "deep-nesting", input: format!("M DEFINITIONS ::= BEGIN\n{}\nEND\n", deep_body(form, depth)), origin: format!("form={form} depth={depth}") };
     }
     let mut rng = Rng::for_case(seed, 8, idx);
-    match rng.below(20) {
+    match rng.below(21) {
+        20 => {
+            // a syntax error behind definitions that end in multi-byte characters (string values, comments), the text preceded by
+            // a byte order mark / blank lines / a comment: every offset the error carries is used to slice the caller's text
+            let lead = *rng.pick(&["\u{feff}", "\u{feff}", "\u{feff}\n", "\n\n", "-- ü\n", "/* 中 */ ", ""]);
+            let mut s = format!("{lead}{}", headers(&mut rng));
+            let words = ["ß", "é", "幅", "日本語", "𝄞", "€uro", "naïve", "Grüße", "x"];
+            for i in 0..1 + rng.below(4) {
+                let w: String = (0..1 + rng.below(4)).map(|_| *rng.pick(&words)).collect::<Vec<_>>().join(" ");
+                match rng.below(4) {
+                    0 => s.push_str(&format!("xq{i} UTF8String ::= \"{w}\"\n")),
+                    1 => s.push_str(&format!("Tq{i} ::= SEQUENCE {{ a INTEGER }} -- {w}\n")),
+                    2 => s.push_str(&format!("-- {w}\nTq{i} ::= BOOLEAN\n")),
+                    _ => s.push_str(&format!("Tq{i} ::= SEQUENCE {{ a INTEGER -- {w}\n}}\n")),
+                }
+            }
+            s.push_str(*rng.pick(&["Bad ::= SEQUENCE { a INTEGER,, }\n", "Bad ::= CHOICE { }\n", "bad INTEGER ::= \n", "Bad ::= SEQUENCE { a ß }\n", "Bad ::= [ INTEGER\n", "Bad ::= ENUMERATED { a( }\n", "§\n"]));
+            if rng.chance(1, 2) {
+                s.push_str("END\n");
+            }
+            Case { cat: "error-behind-multibyte-text", input: s, origin: String::new() }
+        }
         0 => {
             let n = rng.below(120);
             Case { cat: "char-soup", input: (0..n).map(|_| pick_char(&mut rng)).collect(), origin: String::new() }
@@ -888,7 +909,7 @@ fn run_shard(seed: u64, mut start: u64, end: u64, nfiles: usize, corpus: &Corpus
 pub fn run(ctx: &Ctx) -> Report {
     let mut rep = Report::new(
         "exploration",
-        "inputs: (a) EXHAUSTIVE every char-boundary prefix of the N smallest corpus modules (N=50 quick, 120 thorough); (b) seeded random: character soup, byte soup (lossy UTF-8), ASN.1 token soup, prefixes of snippet modules and corpus modules, 1-3 token-level mutations (delete/insert/replace/duplicate/swap/splice/delete-run) of the 892 corpus modules (<=24 kB) and of snippet modules, modules composed from a 120-entry library of exotic notation (MACRO, CLASS/objects/sets, TIME, REAL, selection, parameterization, cyclic type/value/object-set references, COMPONENTS OF, unsupported constraints), multi-byte characters at token boundaries, comments/strings left open at EOF, nesting to depth 10^4, random graphs of type references and of value references (chains into cycles, self references, used from DEFAULTs, bounds, named numbers, actual parameters); (c) COVERAGE-GUIDED: libFuzzer (cargo-fuzz, sanitizer-coverage build of the compiler from the working tree, 16 forked jobs, ASN.1 dictionary, inputs <= 1 KiB, seeded with the small corpus modules and 200 snippet modules) explores for 40 s (quick) / 900 s (thorough); every input it keeps (one per new coverage feature) and every crash / timeout / oom artifact is then a case of category `coverage-guided` for the same worker (the fuzzer only generates; the worker observes). Each case: compile_to_string with both backends, Display and contextualize of the error and of every warning, in a worker process with an 8 MiB main-thread stack. Non-trivial = case returned or died with a classified observation; distinct by input hash.",
+        "inputs: (a) EXHAUSTIVE every char-boundary prefix of the N smallest corpus modules (N=50 quick, 120 thorough); (b) seeded random: character soup, byte soup (lossy UTF-8), ASN.1 token soup, prefixes of snippet modules and corpus modules, 1-3 token-level mutations (delete/insert/replace/duplicate/swap/splice/delete-run) of the 892 corpus modules (<=24 kB) and of snippet modules, modules composed from a 120-entry library of exotic notation (MACRO, CLASS/objects/sets, TIME, REAL, selection, parameterization, cyclic type/value/object-set references, COMPONENTS OF, unsupported constraints), multi-byte characters at token boundaries, syntax errors behind definitions that end in multi-byte text (with and without a leading byte order mark), comments/strings left open at EOF, nesting to depth 10^4, random graphs of type references and of value references (chains into cycles, self references, used from DEFAULTs, bounds, named numbers, actual parameters); (c) COVERAGE-GUIDED: libFuzzer (cargo-fuzz, sanitizer-coverage build of the compiler from the working tree, 16 forked jobs, ASN.1 dictionary, inputs <= 1 KiB, seeded with the small corpus modules and 200 snippet modules) explores for 40 s (quick) / 900 s (thorough); every input it keeps (one per new coverage feature) and every crash / timeout / oom artifact is then a case of category `coverage-guided` for the same worker (the fuzzer only generates; the worker observes). Each case: compile_to_string with both backends, Display and contextualize of the error and of every warning, in a worker process with an 8 MiB main-thread stack. Non-trivial = case returned or died with a classified observation; distinct by input hash.",
     );
     rep.must_observe = vec!["cases_with_error_or_warning_rendered".into()];
     rep.assumptions = vec![
